@@ -82,9 +82,10 @@ class Ctx:
 
     def n(self, quick, thorough):
         """Case budget: quick count, or the thorough total divided over the shards."""
+        scale = float(os.environ.get('IXV_BUDGET', '1') or 1)      # < 1 in the additional pass under `python -O`
         if self.tier == 'quick':
-            return quick
-        return max(1, thorough // self.nshards)
+            return max(1, int(quick * scale))
+        return max(1, int(thorough * scale) // self.nshards)
 
     # -- recording --------------------------------------------------------------------------
     def record(self, sub, case, res, sample=True):
@@ -298,6 +299,8 @@ def save_replay(prop, v):
     d = os.path.join(VERIF, 'replays', prop)
     os.makedirs(d, exist_ok=True)
     body = {'property': prop, 'sub': v['sub'], 'key': v['key'], 'detail': v['detail'], 'case': v['case']}
+    if sys.flags.optimize:
+        body['python_flags'] = 'O'
     name = digest(body) + '.json'
     path = os.path.join(d, name)
     with open(path, 'w') as f:
